@@ -61,12 +61,50 @@ Scenario(p, role, hasS, hasRS, mods, lack) ==
                         IF cz = {} THEN [res |-> "ok", obs |-> HsObs(Initialize(id, role, ppn, cfg))]
                         ELSE [res |-> "err", causes |-> cz, kinds |-> KindsB(cz)]) >>]
 
+(* ---- C10: keys of any length, set_psk at any position with any length --------------------- *)
+(* the properties fix no outcome for keys of unusual length ("any": Ok or Err) - only that the call
+   returns (C10): a panic or a hang is what no action explains *)
+KeyLens == {0, 1, 31, 32, 33, 56, 57, 64, 65, 66, 100, 200}
+KeyTerm(nm, len) == IF len = 0 THEN Empty ELSE <<"lit", nm, len>>
+KeyLenScenario(role, which, len, dh) ==
+  LET pl == PubLen(dh)
+      cfg0 == CfgB(role, TRUE, TRUE, {})
+      cfg == CASE which = "s"  -> [cfg0 EXCEPT !.s = KeyTerm("keyS", len)]
+               [] which = "rs" -> [cfg0 EXCEPT !.rs = KeyTerm("keyRS", len)]
+               [] which = "e"  -> [cfg0 EXCEPT !.fixed_e = KeyTerm("keyE", len)]
+      lim == IF which = "rs" THEN pl ELSE 32
+      nm == NameOf("XX", <<>>, dh, "ChaChaPoly", "SHA256")
+      id == IF role = "i" THEN "I" ELSE "R"
+  IN [family |-> "builder", name |-> nm, noreuse |-> FALSE,
+      prm |-> [which |-> which, len |-> len, dh |-> dh, role |-> role],
+      steps |-> << Step("build", id, [role |-> role, pp |-> PP("XX", {}, pl, Len(nm) <= 32), cfg |-> cfg, lack |-> "none"],
+                        [res |-> "any", causes |-> IF len > lim THEN {"B_KEYLEN"} ELSE {}]) >>]
+
+PskLocs == {0, 4, 9, 10, 11, 255, 256, 70000}
+PskLens == {0, 1, 31, 32, 33, 64}
+SetPskScenario(loc, len) ==
+  LET pp == PP("NNpsk0x", {}, 32, FALSE)
+      ppn == PP("NN", {0}, 32, FALSE)
+      cfg == CfgB("i", FALSE, FALSE, {})
+      st == Initialize("I", "i", ppn, cfg)
+      nm == NameOf("NN", <<"psk0">>, "25519", "ChaChaPoly", "SHA256")
+  IN [family |-> "builder", name |-> nm, noreuse |-> FALSE, prm |-> [loc |-> loc, len |-> len],
+      steps |-> << Step("build", "I", [role |-> "i", pp |-> ppn, cfg |-> cfg, lack |-> "none"],
+                        [res |-> "ok", obs |-> HsObs(st)]),
+                   Step("set_psk", "I", [loc |-> loc, key |-> KeyTerm("pskk", len)],
+                        IF len = 32 /\ loc < 10 THEN [res |-> "ok", obs |-> HsObs(st)]
+                        ELSE [res |-> "err", causes |-> {"P_LEN_OR_LOCATION"}, kinds |-> {"Input"}, obs |-> HsObs(st)]) >>]
+
 Init == done = FALSE /\ ep = <<>> /\ hist = <<>> /\ aeadLog = {}
 Next ==
   /\ ~done /\ done' = TRUE /\ UNCHANGED vars
   /\ \A p \in PatSetB : \A role \in {"i", "r"} : \A hasS \in BOOLEAN : \A hasRS \in BOOLEAN :
        \A mods \in ModLists : \A lack \in Lacks :
          PrintT(<<"SCN", ToJson(Scenario(p, role, hasS, hasRS, mods, lack))>>)
+  /\ \A role \in {"i", "r"} : \A which \in {"s", "rs", "e"} : \A len \in KeyLens : \A dh \in {"25519", "P256"} :
+       PrintT(<<"SCN", ToJson(KeyLenScenario(role, which, len, dh))>>)
+  /\ \A loc \in PskLocs : \A len \in PskLens :
+       PrintT(<<"SCN", ToJson(SetPskScenario(loc, len))>>)
 Spec == Init /\ [][Next]_<<done, vars>>
 
 (* the derived prerequisites are consistent with what an honest run needs: a role that never uses a
